@@ -239,6 +239,20 @@ fn conv_case(c: &Value, rng: &mut Rng) -> Option<(String, Value, Value)> {
             }
             None
         }
+        "truncate" => {
+            // value * 1e9 is exactly representable in f32 here, so the only freedom left is how the fraction is dropped: truncation
+            let secs = (i(c, "m") as f64) * 2f64.powi(-(i(c, "j") as i32));
+            let got = Time::try_from(Quantity::new(secs as f32, SECOND));
+            // the exact product has a fractional part: the property allows 1 ns here; which of the two neighbours is returned must
+            // not depend on the configuration (C19 compares the OBS lines of the configurations with each other)
+            match got {
+                Ok(t) if (t.0 - i(c, "ns")).abs() <= 1 => {
+                    println!("OBS {}", json!({"m": c["m"], "j": c["j"], "ns": t.0}));
+                    None
+                }
+                _ => Some(("Time::try_from(Quantity): value * 1e9 within 1 ns".into(), json!({"seconds": secs, "ns": c["ns"]}), json!(format!("{got:?}")))),
+            }
+        }
         "time_try_from" => {
             let v = rng.float(-20, 3);
             let got = Time::try_from(Quantity::new(v, unit(&c["u"])));
